@@ -12,7 +12,7 @@ RULE = ("annotations from the C01 generator (valid, and with one tree-level faul
         "original and the annotation has >= 3 tags; distinct = distinct (schema, defs, original, rewrite)")
 ASSUMPTIONS = ["relational monitor: a defect affecting both executions identically is invisible here (C01 covers that)",
                "only ERROR severity is compared (capitalisation warnings legitimately depend on spelling)"]
-MIN_MONITOR_EVALS = {"codes-equal-under-rewrite": 3000, "repeat-reported-anywhere": 100}
+MIN_MONITOR_EVALS = {"revalidation-stable": 3000, "codes-equal-under-rewrite": 3000, "repeat-reported-anywhere": 100}
 TREE_KINDS = ["unknown-tag", "extension-forbidden", "extension-is-schema-term", "requires-child", "bad-unit", "bad-value",
               "repeated-tag", "repeated-group", "taggroup-outside-group", "toplevel-nested", "empty-group",
               "stray-placeholder", "undeclared-def", "def-extra-value", "def-missing-value", "altered-def-expand",
@@ -48,6 +48,20 @@ def check_case(case, rec):
     except Exception as ex:  # noqa
         rec.violation(f"validate raised {type(ex).__name__}", case)
         return
+    # the same object validated twice, and the original validated again after the rewrite, give the same codes
+    try:
+        from hed.models.hed_string import HedString
+        from hed.errors.error_types import ErrorSeverity
+        hs = HedString(case["text"], schema, def_dict=dd)
+        twice = [sorted(i["code"] for i in hs.validate(allow_placeholders=case["ap"]) if i["severity"] == ErrorSeverity.ERROR)
+                 for _ in range(2)]
+    except Exception as ex:  # noqa
+        rec.violation(f"validating the same object twice raised {type(ex).__name__}", case)
+        return
+    rec.mon("revalidation-stable")
+    if twice[0] != a or twice[1] != a:
+        rec.violation("validating the same annotation again gives different error codes",
+                      dict(case, first=a, same_object=twice))
     rec.mon("codes-equal-under-rewrite")
     rec.count("rewrite", case["how"])
     if case.get("kind") in ("repeated-tag", "repeated-group"):
